@@ -1095,6 +1095,11 @@ class Model:
                     if not len(d) == 2:
                         continue
 
+                    # An alias relates two whole variables. An equation between
+                    # some elements of two vectors (y[1] = x[1]) is not one.
+                    if not (eq.numel() == d[0].numel() == d[1].numel()):
+                        continue
+
                     # Check with substitute, which is a more expensive operation
                     if ca.substitute(eq, d[0], d[1]).is_zero():
                         return d, False
